@@ -111,6 +111,8 @@ int main() {
       run_subdiv(in);
     } else if (tag == "X") {
       run_edgeops(in);
+    } else if (tag == "Q") {
+      run_subdiv_q(in);
     }
     fflush(stdout);
   }
